@@ -509,16 +509,96 @@ pub fn run_component(report: &Report, tier: &Tier, share: f64) {
     });
 }
 
+/// End-to-end: one daemon registers a service with the list, another one on the same link
+/// browses the type; what the browser reports is compared with what was given.
+pub fn e2e_case(seed: u64, l: &mut Local) {
+    use crate::scen;
+    use crate::world::*;
+    let mut rng = Rng::new(seed);
+    let mut list = gen_list(&mut rng);
+    // keep the record within one packet
+    while list.iter().map(|(k, v)| 2 + k.len() + v.as_ref().map_or(0, |v| v.len())).sum::<usize>() > 6000 {
+        list.pop();
+    }
+    let truth = first_wins(&list);
+    if representable(&truth).is_some() || truth.iter().any(|(k, _)| k.is_empty()) {
+        return; // refused at creation: the component part's business
+    }
+    let mut w = World::new(seed);
+    w.set_stepping(Stepping::Lazy);
+    let a = w.add_host(vec![IfSpec::new("eth0", 2, 0, &[("10.0.0.5", 24)])]);
+    let b = w.add_host(vec![IfSpec::new("eth0", 2, 0, &[("10.0.0.6", 24)])]);
+    w.set_ip_check_interval(a, 3600);
+    w.set_ip_check_interval(b, 3600);
+    let late_browse = rng.chance(1, 2);
+    let mut chan = if late_browse { None } else { w.browse(b, "_t._udp.local.") };
+    let addrs: Vec<std::net::IpAddr> = vec!["10.0.0.5".parse().unwrap()];
+    let mut reg = World::reg_info("_t._udp.local.", "txt", "txthost.local.", &addrs, 80, &[]);
+    reg.txt = list.clone();
+    reg.requires_probe = rng.chance(1, 2);
+    l.evaluations += 1;
+    if !w.register(a, reg) {
+        // (the statement does not oblige creation to accept anything: a refusal is never a violation)
+        l.act("Y4-refused");
+        return;
+    }
+    w.run_for(2500);
+    if late_browse {
+        // learned through the answer to the browse query instead of the announcement
+        chan = w.browse(b, "_t._udp.local.");
+        w.run_for(1500);
+    }
+    if w.trace.deaths().any(|d| matches!(d.ev, Ev::Death { panicked: true, .. })) {
+        l.inconclusive.push(format!("daemon died in a C16 end-to-end scenario (seed {seed})"));
+        return;
+    }
+    let Some(chan) = chan else { return };
+    let resolved: Vec<&mdns_sd::ResolvedService> = w.trace.obs(chan).filter_map(|(_, o)| if let Obs::Resolved(r) = o { Some(&**r) } else { None }).collect();
+    l.act("Y4");
+    l.distinct.insert(util::fnv_str(&format!("e2e|n{}|dup{}|nov{}|emptyv{}|late{late_browse}", truth.len().min(8), truth.len() != list.len(), truth.iter().any(|(_, v)| v.is_none()), truth.iter().any(|(_, v)| v.as_ref().is_some_and(|v| v.is_empty())))));
+    let wit = |got: &[Item]| json!({"given": show(&list), "expected": show(&truth), "reported": show(got), "learned_from": if late_browse { "answer to the browse query" } else { "announcement" }, "trace": scen::witness(&w.trace, 12)});
+    let Some(last) = resolved.last() else {
+        l.violate(Violation::new("Y4", "Y4/never-resolved", "the browsing daemon never resolved the service").with(wit(&[])));
+        return;
+    };
+    for r in resolved.iter() {
+        let got = props_to_items(&r.txt_properties);
+        if let Some(why) = compare(&truth, &got, true) {
+            let class = if got.len() != truth.len() { "count" } else if got.iter().zip(truth.iter()).any(|(g, t)| g.0 != t.0) { "key-or-order" } else if got.iter().zip(truth.iter()).any(|(g, t)| g.1.is_none() != t.1.is_none()) { "none-vs-empty" } else { "value-bytes" };
+            l.violate(Violation::new("Y4", format!("Y4/reported-properties-differ/{class}"), format!("the browser reports other properties than were registered: {why}")).with(wit(&got)));
+            return;
+        }
+    }
+    // case-insensitive lookup on what the browser holds
+    for (k, v) in truth.iter() {
+        l.act("Y4-lookup");
+        for spelled in [k.to_uppercase(), k.to_lowercase()] {
+            let got = last.txt_properties.get(&spelled).map(|p| p.val().map(|v| v.to_vec()));
+            if got != Some(v.clone()) {
+                l.violate(Violation::new("Y4", "Y4/lookup-by-other-case-fails", format!("get({spelled:?}) on the reported properties does not find the value registered under {k:?}")).with(wit(&props_to_items(&last.txt_properties))));
+                return;
+            }
+        }
+    }
+}
+
 pub fn run(report: &Report, tier: &Tier) {
     report.set_rule(
         "property lists of 0..40 entries (keys: empty, '=', non-ASCII, 253..256 bytes, case variants, duplicates; values: none, empty, \
          binary, '=', NUL, sizes around the 255-byte limit) through Vec<TxtProperty>, &[(K,V)], HashMap and Option<HashMap>; \
-         plus arbitrary / damaged byte strings as received TXT data; distinct by (input type, size, representability, accepted, \
+         plus arbitrary / damaged byte strings as received TXT data; end to end: accepted lists registered on one daemon and read from the \
+         ServiceResolved of a second daemon on the same link (learned from the announcement or from the answer to its query); distinct by (input type, size, representability, accepted, \
          duplicate/no-value/empty-value/empty-key flags)",
     );
     report.assume("a zero-length TXT string may be read as 'end of data' or skipped (both stay inside the record)");
-    for r in ["Y1-wire", "Y1-decode", "Y1-lookup", "Y2", "Y2-refused", "Y3"] {
+    for r in ["Y1-wire", "Y1-decode", "Y1-lookup", "Y2", "Y2-refused", "Y3", "Y4", "Y4-lookup"] {
         report.floor(r, 20);
     }
-    run_component(report, tier, 1.0);
+    run_component(report, tier, 0.6);
+    // end to end: a registering and a browsing daemon on one simulated link
+    let seed = report.seed;
+    let n: u64 = if tier.thorough { 60_000 } else { 3_000 };
+    run_parallel(report, n, threads(), tier.budget_s * 0.4, |i, l| {
+        e2e_case(util::mix(seed, 0xC16_E2E0 + i), l);
+    });
 }
